@@ -147,7 +147,8 @@ int main(int argc, char **argv) {
             }
             c.cfg = {*gx::bnd({0, 1, 0x2000, 0x0800, 0x8000, 0xFFFF, 0x0102}, 0, 0xFFFF, 1, 1), *g32(), *g32(), *g32(), *gx::pick({0, 1, 1}), *gx::range<int64_t>(0, 255),
                      *gx::bnd({0, 1, 0xFF, 0x100, 0xFFFF, 0x0102}, 0, 0xFFFF, 1, 1), *gx::range<int64_t>(-128, 127), fail, *gx::pick({0, 1}),
-                     *gx::weighted<int64_t>({{1, gx::pick({0, 0xFFFFFFFFFFFFLL})}, {6, gx::range<int64_t>(1, 0xFFFFFFFFFFFELL)}}), *gx::range<int64_t>(0, 0xFFFFFFFFFFFFLL),
+                     *gx::weighted<int64_t>({{1, gx::pick({0, 0xFFFFFFFFFFFFLL})}, {6, gx::range<int64_t>(1, 0xFFFFFFFFFFFELL)}}), *gx::weighted<int64_t>({{1, gx::pick({0, 0xFFFFFFFFFFFFLL, 1, 0xFFFFFFFFFFFELL, 0x0000FF000000LL})}, {5, gx::range<int64_t>(0, 0xFFFFFFFFFFFFLL)}}),   // BSSID: every value the platform reports is encoded, all-zero and all-ones included
+                    
                      *gx::pick({576, 1500, 9216}), *gx::pick({0, 1}), *gx::pick({0, 0, 1, 2, 3})};
             c.blobs = {*gx::bytes(0, 40), *gx::bytes(0, 40), *gx::bytes(16, 16)};
             return c;
